@@ -152,6 +152,12 @@ def run(ctx):
         for ops in ([("call", (v,)), ("call", (v,))], [("call", (v,)), ("len", (99,))], [("call", (v,)), ("alphabet", ("z",))],
                     [("alphabet", (v,)), ("alphabet", (v,))], [("contains", (v,)), ("len", (..., 0))], [("contains", (v,)), ("alphabet", ("z",))]):
             cases.append(declcorr.ChainCase("str", list(ops)))
+    # a fixed float value and bounds within the validator's tolerance of it but on its wrong side, in every order
+    for v, lo_bad, hi_bad in ((0.3, 0.1 + 0.2, 0.3 - 6e-17), (1.5, 1.5 + 1e-12, 1.5 - 1e-12), (1e9, 1e9 + 0.5, 1e9 - 0.5), (-2.0, -2.0 + 1e-13, -2.0 - 1e-13)):
+        for ops in ([("call", (v,)), ("min", (lo_bad,))], [("call", (v,)), ("max", (hi_bad,))], [("min", (lo_bad,)), ("call", (v,))],
+                    [("max", (hi_bad,)), ("call", (v,))], [("call", (v,)), ("min", (v,)), ("max", (hi_bad,))], [("min", (lo_bad,)), ("max", (lo_bad + 1,)), ("call", (v,))],
+                    [("call", (v,)), ("precision", (3,)), ("min", (lo_bad,))], [("min", (v,)), ("max", (hi_bad,))]):
+            cases.append(declcorr.ChainCase("float", list(ops)))
     # arguments of a NEIGHBOURING numeric kind at every position of every numeric refinement: ints (small, beyond 2**53, beyond
     # the float range), bools, Decimal / Fraction / complex / numeric strings for float methods; floats (integral, huge,
     # non-finite) and bools for int methods
